@@ -3,7 +3,9 @@ package sim
 import (
 	"bytes"
 	"context"
+	"encoding/hex"
 	"fmt"
+	"math"
 	"runtime/debug"
 	"sort"
 	"sync/atomic"
@@ -103,7 +105,65 @@ func (w *World) descLess(a, b *MEntry) bool { // a newer than b
 	return a.Hash > b.Hash
 }
 
+// doIterTruncated: the default upper bound ("the heads") on a log object whose heads were last set by
+// a size-bounded merge. Every kept entry has all its successors kept, so the default iteration emits
+// exactly the entries the log holds.
+func (w *World) doIterTruncated() {
+	a, b := w.pickUp("itr-a"), w.pickUp("itr-b")
+	r := w.R
+	pick := r.Choose("itr-n", 1<<16)
+	if a == nil || b == nil || a == b {
+		return
+	}
+	u := copySet(a.Set)
+	union(u, b.Set)
+	bound := pick % (len(u) + 2)
+	c := w.clone(a, true)
+	if _, err := c.Join(w.clone(b, true), bound); err != nil {
+		r.Violate("C15:setup", "bounded merge of honest logs returned %v", err)
+	}
+	held := hashSet(c.GetEntries())
+	ch := make(chan iface.IPFSLogEntry, len(u)+8)
+	var err error
+	out := Protect(func() { err = c.Iterator(&ipfslog.IteratorOptions{}, ch) })
+	r.Logf("iter on n%d+n%d merged with bound %d: holds %d", a.Idx, b.Idx, bound, len(held))
+	r.Probe("iter-after-bounded-merge")
+	if out.Status == "violation" {
+		r.Violate("C15:panic", "Iterator on a log truncated by a bounded merge panicked: %s", out.Msg)
+	} else if out.Status != "ok" {
+		r.Harness("%s", out.Msg)
+	}
+	if err != nil {
+		r.Violate("C15:error", "Iterator with default options on a log truncated by a bounded merge returned %v", err)
+	}
+	var got []string
+	for drained := false; !drained; {
+		select {
+		case e, ok := <-ch:
+			if !ok {
+				drained = true
+			} else {
+				got = append(got, e.GetHash().String())
+			}
+		default:
+			r.Violate("C15:not-closed", "Iterator returned success without closing the output channel (truncated log, %d emitted)", len(got))
+		}
+	}
+	for _, h := range got {
+		if !held[h] {
+			r.Violate("C15:range", "Iterator with the default upper bound emitted %s, which the log (truncated to %d by a bounded merge) does not hold", w.M.Name(h), len(held))
+		}
+	}
+	if hasDup(got) || len(got) != len(held) {
+		r.Violate("C15:count", "Iterator with default options on a log holding %d entries (after a bounded merge) emitted %d", len(held), len(got))
+	}
+}
+
 func (w *World) doIter() {
+	if w.R.Choose("iter-truncated", 6) == 0 {
+		w.doIterTruncated()
+		return
+	}
 	n := w.pickUp("iter-node")
 	r := w.R
 	mode := r.Choose("iter-upper", 8) // 0-1 default, 2-4 LTE, 5-6 LT, 7 unknown
@@ -300,7 +360,7 @@ func (w *World) doIter() {
 	if !strict {
 		r.Probe("iter-ties")
 		// order among tied entries is not determined: only what does not depend on it is required
-		key := func(h string) string { return fmt.Sprintf("%012d/%s", m.Reg[h].Time, m.Reg[h].ClockID) }
+		key := func(h string) string { return fmt.Sprintf("%020d/%s", m.Reg[h].Time, m.Reg[h].ClockID) }
 		emitted := map[string]bool{}
 		for _, h := range got {
 			if !R[h] {
@@ -364,6 +424,11 @@ func (w *World) doBounded() {
 	union(u, b.Set)
 	total := len(u)
 	nBound := pick % (total + 4)
+	if pick%16 == 15 {
+		// any n >= 0 is a legal bound; the largest ones must not be used as an allocation size
+		nBound = []int{math.MaxInt64, math.MaxInt64 / 2, math.MaxInt64 - 1}[(pick/16)%3]
+		w.R.Probe("bound-huge")
+	}
 	lin, strict := m.Linear(u, w.ByHash)
 	if !strict {
 		// reference = what the unbounded merge produces on identical clones
@@ -417,7 +482,7 @@ func (w *World) doBounded() {
 	} else {
 		// comparator ties: which of several tied entries sits at the cut, and their relative order, is not
 		// determined; the kept multiset of (time, id) keys and sortedness are
-		key := func(h string) string { return fmt.Sprintf("%012d/%s", m.Reg[h].Time, m.Reg[h].ClockID) }
+		key := func(h string) string { return fmt.Sprintf("%020d/%s", m.Reg[h].Time, m.Reg[h].ClockID) }
 		var gk, wk []string
 		for _, h := range vals {
 			if !u[h] {
@@ -465,9 +530,12 @@ func (w *World) doBounded() {
 	// with heads equal to the unreferenced entries among them
 	for round := 0; round < r.Choose("bnd-chain", 3); round++ {
 		o := w.pickUp("bnd-other")
-		n2 := r.Choose("bnd-n2", total+4)
+		n2 := r.Choose("bnd-n2", total+5)
 		if o == nil {
 			break
+		}
+		if n2 == total+4 {
+			n2 = math.MaxInt64
 		}
 		var err error
 		out := Protect(func() { _, err = c.Join(w.clone(o, true), n2) })
@@ -1019,7 +1087,26 @@ func (w *World) doRefused() {
 			return
 		}
 	}
+	if what := r.Choose("refuse-foreign", 3); what == 0 && w.Codec != "pb" && (w.P.Check["C05"] || w.P.Check["C06"] || w.P.Check["C18"]) && len(n.Set) > 0 {
+		w.foreignMerge(n)
+		return
+	}
 	pl := w.payload()
+	// entries are deterministic: a replica in the state another replica of the same writer was in, appending
+	// the same payload, produces the very entry that other replica already holds. Refusing it must not
+	// disturb that entry (its block, its place in other logs)
+	myKey := hex.EncodeToString(n.W.ID.PublicKey)
+	myHeads := joinS(w.M.Heads(n.Set))
+	var twins []*MEntry
+	for _, h := range w.M.Order {
+		if me := w.M.Reg[h]; !n.Set[h] && me.ClockID == myKey && me.LogID == w.LogID && joinS(sortedCopy(me.Next)) == myHeads {
+			twins = append(twins, me)
+		}
+	}
+	if k := r.Choose("refuse-twin", 2*len(twins)+1); k < len(twins) {
+		pl = []byte(twins[k].Payload)
+		r.Probe("refused-append-of-an-entry-another-replica-holds")
+	}
 	before := w.observe(n.Log)
 	n.Pol.kind, n.Pol.prefix = 2, pl
 	e, err := n.Log.Append(w.ctx, pl, &ipfslog.AppendOptions{PointerCount: w.pointerCount()})
@@ -1034,6 +1121,43 @@ func (w *World) doRefused() {
 		r.Violate(w.P.Prop+":denied-append-changed-log", "a refused append changed the log: %s", d)
 	}
 	n.ClockAhead = true
+}
+
+// foreignMerge: an application configured with another codec (no link key, or a different one) tries
+// to merge a live replica. Whether that merge is accepted is that application's business; the
+// replica it read from must not notice: its entries are unchanged and still verify.
+func (w *World) foreignMerge(n *Node) {
+	r := w.R
+	var io iface.IO = linkIO(linkKeyBytes(2))
+	kind := "other link key"
+	if w.LinkKeyBytes != nil && r.Choose("foreign-io", 2) == 0 {
+		io, kind = defaultIO(), "no link key"
+	}
+	held := n.Log.GetEntries().Slice()
+	fps := make([]string, len(held))
+	for i, e := range held {
+		fps[i] = fingerprint(e)
+	}
+	before := w.observe(n.Log)
+	scratch, err := ipfslog.NewLog(w.St, Writers()[4].ID, &ipfslog.LogOptions{ID: w.LogID, SortFn: w.sortFn(), IO: io})
+	if err != nil {
+		r.Harness("foreign NewLog: %v", err)
+	}
+	_, jerr := scratch.Join(n.Log, -1)
+	r.Fault("foreign-codec-merge")
+	r.Logf("foreign-merge of n%d by a log with %s: err=%v", n.Idx, kind, jerr != nil)
+	for i, e := range held {
+		if f := fingerprint(e); f != fps[i] {
+			r.Violate(w.P.Prop+":mutated", "entry %s held by replica %d changed when a log with %s tried to merge it: was %s now %s", w.M.Name(e.GetHash().String()), n.Idx, kind, fps[i], f)
+		}
+		if err := e.Verify(n.W.ID.Provider, w.IO); err != nil {
+			r.Violate(w.P.Prop+":poisoned", "entry %s held by replica %d no longer verifies after a log with %s tried to merge it: %v", w.M.Name(e.GetHash().String()), n.Idx, kind, err)
+		}
+	}
+	_, strict := w.M.Linear(n.Set, w.ByHash)
+	if d := w.sameObs(before, w.observe(n.Log), strict); d != "" {
+		r.Violate(w.P.Prop+":mutated", "a merge attempt by another log changed the source replica %d: %s", n.Idx, d)
+	}
 }
 
 // doRebuild: the application rebuilds its log object from what it holds in memory (entries only,
@@ -1076,7 +1200,7 @@ func (w *World) doPartial() {
 	var l *ipfslog.IPFSLog
 	var err error
 	w.driven(func(ctx context.Context) {
-		l, err = ipfslog.NewFromEntry(ctx, w.St, src.W.ID, append([]iface.IPFSLogEntry(nil), heads...), w.logOpts(), &entry.FetchOptions{Concurrency: conc, Length: &lim})
+		l, err = ipfslog.NewFromEntry(ctx, w.St, src.W.ID, append([]iface.IPFSLogEntry(nil), heads...), w.loadOpts(), &entry.FetchOptions{Concurrency: conc, Length: &lim})
 	})
 	if err != nil {
 		r.Violate("C02:load-error", "length-limited load failed with no fault injected: %v", err)
